@@ -36,7 +36,9 @@ StringIdentity == (Mode = "strings" /\ Ready /\ x # <<>>) => REq(JW(x, x, p), <<
 
 \* ---- dates: x, y are distances <<num, den>>
 DateInUnit == (Mode = "dates" /\ Ready) => InUnitR(DateSim(x, p))
-DateMonotone == (Mode = "dates" /\ Ready) => (RLe(x, y) => RLe(DateSim(y, p), DateSim(x, p)))
+\* never increases as the distance grows (distances with the same denominator, so that the similarities
+\* have the same denominator too and 32-bit products are avoided)
+DateMonotone == (Mode = "dates" /\ Ready /\ x[2] = y[2]) => (x[1] <= y[1] => (DateSim(y, p)[1] = 0 \/ (DateSim(y, p)[2] = DateSim(x, p)[2] /\ DateSim(y, p)[1] <= DateSim(x, p)[1])))
 DateIdentity == (Mode = "dates" /\ Ready) => (x[1] = 0 => REq(DateSim(x, p), <<1, 1>>))
 DateZeroBeyond == (Mode = "dates" /\ Ready) => (RLe(<<p, 1>>, x) /\ ~REq(<<p, 1>>, x) => DateSim(x, p)[1] = 0)
 
